@@ -72,7 +72,8 @@ CheckBits(S, m0) ==
        /\ ReadBitsAddrs(S, x, y, n) \subseteq RowAddrs(S, x)
        /\ LET m1 == ClearBits(m0, S, x, y, n) IN Eq(MatOf(m1, S), ClearBitsSem(MatOf(m0, S), x, y, n)) /\ FrameOK(m0, m1, S)
        /\ \A v \in SUBSET (0 .. n - 1) :
-            LET m1 == XorBits(m0, S, x, y, n, v) IN Eq(MatOf(m1, S), XorBitsSem(MatOf(m0, S), x, y, n, v)) /\ FrameOK(m0, m1, S)
+            /\ LET m1 == XorBits(m0, S, x, y, n, v) IN Eq(MatOf(m1, S), XorBitsSem(MatOf(m0, S), x, y, n, v)) /\ FrameOK(m0, m1, S)
+            /\ LET m1 == AndBits(m0, S, x, y, n, v) IN Eq(MatOf(m1, S), AndBitsSem(MatOf(m0, S), x, y, n, v)) /\ FrameOK(m0, m1, S)
 
 \* second source for binary operations: the window with the same shape in the other row block / word offset of SRC
 CheckConcat(S, m0) ==
